@@ -240,8 +240,93 @@ async def _run_path(target_cls: type[_Target], g: graph.Graph, path: graph.Path,
         await tgt.teardown()
 
 
+async def _lazy_connect_scenario(how: str) -> dict[str, Any]:
+    """The client is not connected yet: the first send_packet() performs the connection while a second one is queued behind it.
+    how = "cancel": the first call is cancelled during the connection attempt; "refused": that attempt fails with ConnectionRefusedError.
+    The queued call (which nobody cancelled) must still succeed - with a connection of its own - and its packet reach the wire whole."""
+    from easynetwork.clients.async_tcp import AsyncTCPNetworkClient
+    from easynetwork.protocol import StreamProtocol
+
+    backend = harness.HarnessBackend()
+    gate = asyncio.Event()
+    sock, peer = harness.loopback_tcp_pair()
+    rx, tx = memtransport.MemPipe(), memtransport.MemPipe()
+    attempts = [0]
+
+    async def create_tcp_connection(*a: Any, **kw: Any) -> Any:
+        attempts[0] += 1
+        n = attempts[0]
+        await gate.wait()
+        if how == "refused" and n == 1:
+            raise ConnectionRefusedError(111, "Connection refused")
+        return memtransport.MemStreamTransport(backend, rx, tx, extra=harness.socket_extra(sock))
+
+    backend.create_tcp_connection = create_tcp_connection  # type: ignore[method-assign]
+    client = AsyncTCPNetworkClient(("verif.invalid", 9), StreamProtocol(_serializer(1)), backend=backend)
+    results: dict[str, str] = {}
+
+    async def send(name: str, packet: tuple[int, int]) -> None:
+        try:
+            await client.send_packet(packet)
+            results[name] = "ok"
+        except asyncio.CancelledError:
+            results[name] = "cancelled"
+        except ConnectionError as exc:
+            results[name] = "connection_error:" + type(exc).__name__
+        except BaseException as exc:  # noqa: BLE001
+            results[name] = f"error:{type(exc).__name__}:{exc}"
+
+    try:
+        ta = asyncio.ensure_future(send("A", (1, 1)))
+        await harness.settle()
+        tb = asyncio.ensure_future(send("B", (2, 1)))
+        await harness.settle()
+        if how == "cancel":
+            ta.cancel()
+            await harness.settle()
+        gate.set()
+        await asyncio.wait([ta, tb], timeout=30)
+        for t in (ta, tb):
+            if not t.done():
+                t.cancel()
+        await harness.settle()
+        wire = [list(_decode(c)) for c in b"".join(tx.log).split(b";") if c] if hasattr(tx, "log") else []
+    finally:
+        try:
+            await asyncio.wait_for(client.aclose(), 5)
+        except BaseException:  # noqa: BLE001
+            pass
+        sock.close()
+        peer.close()
+    problems = []
+    if results.get("B") != "ok":
+        problems.append(f"B (never cancelled): {results.get('B')}")
+    if how == "cancel" and results.get("A") != "cancelled":
+        problems.append(f"A: {results.get('A')}")
+    if how == "refused" and not str(results.get("A")).startswith("connection_error"):
+        problems.append(f"A: {results.get('A')}")
+    if problems:
+        wire.append([0, 0, 0])
+    return {"nchunks": 1, "wire": wire, "cancelled": [[1, 1]], "expected": [[2, 1]], "meta": f"lazy connection, first attempt {how}: results={results} attempts={attempts[0]} problems={problems} wire={wire}"}
+
+
 def run(chk: Check) -> None:
     quick = chk.tier == "quick"
+    lazy = [vloop.run(lambda: _lazy_connect_scenario(how)) for how in ("cancel", "refused")]
+    from .. import traces as _traces
+    from .c12_threads import TRACE_CFG as WIRE_CFG
+
+    lres = _traces.validate("SendLockWire", [{"nchunks": t["nchunks"], "wire": t["wire"], "cancelled": t["cancelled"], "expected": t["expected"], "events": []} for t in lazy], cfg_text=WIRE_CFG)
+    chk.traces += len(lazy)
+    chk.extra["lazy_connection"] = {"scenarios": len(lazy), "rejected": len(lres.rejected)}
+    for idx in sorted(lres.rejected):
+        t = lazy[idx]
+        chk.distinct.add(t["meta"])
+        chk.violation(
+            {"kind": "wire", "target": "AsyncTCPNetworkClient", "scenario": "lazy_connection"},
+            f"AsyncTCPNetworkClient, senders queued behind the connection attempt: {t['meta']}",
+            {"kind": "lazy_connection", "meta": t["meta"]},
+        )
     nsenders, nchunks, pkts, maxcancel = (3, 2, 1, 1) if quick else (3, 2, 2, 2)
     with tempfile.TemporaryDirectory(prefix="vf_c12b_") as d:
         cfg = os.path.join(d, "sl.cfg")
